@@ -31,7 +31,8 @@ def enc(groups):
 
 def run(ctx):
     rng = ctx.rng
-    ctx.rule = ("valid files of every data type whose flag section is rewritten: bit 6 of the first byte, every single unknown "
+    ctx.rule = ("valid files of every data type - written by the current compressor, the 8 shipped assets of releases 0.4-0.10, and "
+                "syntax trees with all 16 combinations of the known flag fields encoded by the spec encoder - whose flag section is rewritten: bit 6 of the first byte, every single unknown "
                 "position over 1..4 continuation bytes, random subsets; each variant is given to header(), the iterator, "
                 "simple_decompress and chunk-wise decoding: every entry point must answer Compatibility; the variant with "
                 "all unknown bits clear must decode to the original numbers; kinds compared with the Lean decoder. "
@@ -55,6 +56,34 @@ def run(ctx):
             for ops in ("H", "N", "D", "H M"):
                 lines.append("dops %s 1000 W%s %s" % (c["dt"], b.hex(), ops))
                 info.append((c["dt"], b.hex(), unknown, ops, vals))
+    # files of OTHER writers: the shipped assets (0.4 .. 0.10: flag bytes with the first bits clear) and syntax trees
+    # with every combination of the four known flag fields, encoded by the spec encoder. A reader that takes a
+    # short cut for "old" flag bytes must still refuse unknown bits in them.
+    others = [(dt, bytes.fromhex(hx), vals, "asset:" + name) for (name, dt, hx, vals) in S.assets()]
+    if ctx.model_ok:
+        from . import c03
+        alines, adt = [], []
+        for use5 in (0, 1):
+            for minc in (0, 1):
+                for g in (0, 1):
+                    for order in (0, rng.choice([1, 2, 7])):
+                        dt = rng.choice(S.ALL_DT)
+                        fl = (use5, order, minc, g)
+                        alines.append("ast %s %d,%d,%d,%d %s" % (dt, use5, order, minc, g, c03.gen_chunk(rng, dt, fl, True)))
+                        adt.append(dt)
+        for dt, a in zip(adt, C.driver(alines)):
+            if a.startswith("ok bytes=") and " self=1 " in a:
+                vals = []
+                for part in a.split(" | ")[1:]:
+                    vals += G.parse_hexlist(S.parse_kv(part).get("vals", ""))
+                others.append((dt, bytes.fromhex(a.split(" ")[1][len("bytes="):]), vals, "ast"))
+    for dt, raw, vals, desc in others:
+        ctx.count("base:" + desc.split(":")[0])
+        for sec, unknown in flag_sections(rng, raw[5], True):
+            b = raw[:5] + sec + raw[6:]
+            for ops in ("H", "N", "D", "H M"):
+                lines.append("dops %s 1000 W%s %s" % (dt, b.hex(), ops))
+                info.append((dt, b.hex(), unknown, ops, vals))
     ans = C.harness(lines)
     mreq = sorted(set((dt, hx) for (dt, hx, _, _, _) in info))
     mans = dict(zip(mreq, C.driver(["dec %s %s" % m for m in mreq]))) if ctx.model_ok else {}
